@@ -2,6 +2,7 @@
    Life/ReadLoop.v, the Read wrapper over ANY decoder program (flate, brotli,
    bzip2 and meta decoders are such programs), with [Inv] holding for the
    freshly opened reader. *)
+From V Require Import Prefix.ReaderImpl Window.Dict Flate.Impl Flate.ImplRel Flate.ImplThms Flate.ImplExamples.
 From V Require Import Prefix.ReaderImpl Prefix.ReaderSpec Prefix.ReaderThms.
 From V Require Import XFlate.Index XFlate.Reader XFlate.Refine XFlate.Sequential.
 From V Require Import Base.Prelude Base.Prog Life.ReadLoop.
@@ -71,3 +72,34 @@ Print Assumptions bit_reader_independent_of_source_script_buffered.
 Theorem bit_reader_independent_of_source_script_bytereader : reader_refines_bytereader.
 Proof. exact reader_refines_bytereader_holds. Qed.
 Print Assumptions bit_reader_independent_of_source_script_bytereader.
+
+(* flate.Reader at implementation level (model Flate/Impl.v, tied per Read call to the code):
+   for EVERY input, EVERY schedule of Read buffer sizes (zero lengths included), every source
+   script and both source kinds, the delivered bytes are a prefix of ONE fixed byte string (the
+   RFC 1951 output) and, when an error is returned, the whole of it on Peek-capable sources:
+   independent of schedule and fragmentation. The class is the RFC model's on every
+   Peek-capable source ... *)
+Theorem flate_reader_independent_of_schedule_and_source_script :
+  forall data fills reads st0 sched obs fin,
+  bytes_lt256 data -> start_state data true fills reads st0 -> fl_run st0 sched = (obs, fin) ->
+  let res := Flate.Spec.inflate data in
+  let out := concat_bytes obs in
+  prefix_of out (Flate.Spec.ir_out res) /\
+  Forall (fun o => fo_err o <> Some EPanic /\ fo_err o <> Some EFuel) obs /\
+  f_outOff fin = zlen out /\
+  (forall e, run_err obs = Some e ->
+     out = Flate.Spec.ir_out res /\
+     (e = EEOF <-> Flate.Spec.ir_err res = None) /\
+     (forall x, Flate.Spec.ir_err res = Some x -> e = x) /\
+     (Flate.Spec.ir_err res = None ->
+        f_inOff fin = Z.of_N (Flate.Spec.ir_used res) /\
+        s_pos (p_src (f_rd fin)) = N.to_nat (Flate.Spec.ir_used res))).
+Proof. exact flate_impl_refines_buffered. Qed.
+Print Assumptions flate_reader_independent_of_schedule_and_source_script.
+
+(* ... and the statement WITHOUT an exception for ReadByte-only sources is FALSE of the model
+   of the Go code - refuted inside Coq by running model and RFC decoder on the 140-byte
+   witness of known finding D10 (class UnexpectedEOF versus Corrupted) *)
+Theorem flate_class_depends_on_source_kind_D10 : ~ flate_impl_refines_rfc1951_statement.
+Proof. exact flate_impl_refines_rfc1951_refuted. Qed.
+Print Assumptions flate_class_depends_on_source_kind_D10.
